@@ -58,6 +58,11 @@ F2d == { Case("F2", <<Rule("start", Cat(Cat(Un(o[1], s[1]), Un(o[2], s[2])), Un(
        \cup { Case("F2", <<Rule("start", Cat(Cat(NT("h"), B), NT("y"))), Rule("h", Cat(Un(o[1], s[1]), Un(o[2], s[2]))), Rule("y", Un(o[3], s[3])), XRule>>) :
            o \in [1..3 -> UnaryOps], s \in [1..3 -> PQ] }
 
+\* the same sub-expression under THREE operators in three unambiguous contexts, in every order (what the second
+\* application leaves behind decides what the third one gets):  start = "c" o1(s) "c" | "b" o2(s) "c" | "a" o3(s) "c"
+F2e == { Case("F2", <<Rule("start", Alt(Cat(Cat(C, Un(o[1], s)), C), Alt(Cat(Cat(B, Un(o[2], s)), C), Cat(Cat(A, Un(o[3], s)), C)))), XRule>>) :
+           o \in [1..3 -> UnaryOps], s \in { Cat(A, B), Alt(A, B), A } }
+
 Suffix(op) == CASE op = "grp" -> "group" [] op = "opt" -> "opt" [] op = "star" -> "star" [] op = "plus" -> "plus"
 F3 == UNION { {
         \* a string terminal with a spelled-out name and a rule of that name under the same operator
@@ -146,7 +151,21 @@ F9all == UNION { {
 \* (only trees the printer can write without adding parentheses of its own)
 F9 == { c \in F9all : Printable(c.decls[1].rhs[1]) }
 
-All == F9 \cup F8b \cup F3b \cup F8 \cup F7 \cup F1 \cup F2 \cup F2b \cup F2c \cup F2d \cup F3 \cup F4 \cup F6
+\* ---- F11: LONG constructs - many alternatives, long sequences, deep nesting, many declarations, many handles ----
+TN(i) == TStr("t" \o ToString(i))
+RECURSIVE AltChain(_, _), CatChain(_), Nest(_, _)
+AltChain(i, n) == IF i = n THEN TN(i) ELSE Alt(TN(i), AltChain(i + 1, n))            \* t1 | t2 | ... | tn   (| groups to the right)
+CatChain(n) == IF n = 1 THEN TN(1) ELSE Cat(CatChain(n - 1), TN(n))                  \* t1 t2 ... tn
+OpAt(d) == CASE d % 4 = 0 -> "grp" [] d % 4 = 1 -> "opt" [] d % 4 = 2 -> "star" [] OTHER -> "plus"
+Nest(d, t) == IF d = 0 THEN t ELSE Un(OpAt(d), Nest(d - 1, t))                       \* ( [ { {{ ( ... t ... ) }} } ] )
+F11 == { Case("F11", <<Rule("start", AltChain(1, n)), XRule>>) : n \in {11, 12, 13, 14, 15, 25, 40} }
+       \cup { Case("F11", <<Rule("start", Un(op, AltChain(1, n))), XRule>>) : n \in {13, 20}, op \in UnaryOps }
+       \cup { Case("F11", <<Rule("start", CatChain(n)), XRule>>) : n \in {13, 14, 30} }
+       \cup { Case("F11", <<Rule("start", Nest(d, Cat(A, B))), XRule>>) : d \in {8, 13, 16} }
+       \cup { Case("F11", [i \in 1..n |-> IF i = 1 THEN Rule("start", AltChain(1, 3)) ELSE Rule("r" \o ToString(i), Cat(TN(i), B))]) : n \in {20, 45} }
+       \cup { Case("F11", <<Rule("start", Alt(Cat(Cat(NT("start"), A), NT("start")), B)), Dir("left", [i \in 1..n |-> HTerm("t" \o ToString(i), TRUE)])>>) : n \in {14, 30} }
+
+All == F11 \cup F9 \cup F8b \cup F3b \cup F8 \cup F7 \cup F1 \cup F2 \cup F2b \cup F2c \cup F2d \cup F2e \cup F3 \cup F4 \cup F6
 \* Guard of the generator itself: every right-hand side (of a rule or of a rule handle) must be a tree the printer writes
 \* without parentheses of its own - otherwise the printed text is the text of ANOTHER tree and every check that compares
 \* with the abstract tree would raise a false alarm.  A violation stops the generation (an infrastructure failure).
@@ -159,5 +178,5 @@ ASSUME Unprintable = {} \/ PrintT(<<"UNPRINTABLE", Unprintable>>)
 ASSUME Unprintable = {}
 
 ASSUME /\ ndJsonSerialize("gen_specs.ndjson", SetToSeq(All))
-       /\ PrintT(<<"GENERATED", Cardinality(All), "F1", Cardinality(F1), "F2", Cardinality(F2) + Cardinality(F2b) + Cardinality(F2c) + Cardinality(F2d), "F3", Cardinality(F3), "F4", Cardinality(F4)>>)
+       /\ PrintT(<<"GENERATED", Cardinality(All), "F1", Cardinality(F1), "F2", Cardinality(F2) + Cardinality(F2b) + Cardinality(F2c) + Cardinality(F2d) + Cardinality(F2e), "F3", Cardinality(F3), "F4", Cardinality(F4)>>)
 =============================================================================
